@@ -78,6 +78,11 @@ CHECKS = {
             "TLC random-walks histories of mapping and set operations for a (hash, equality) pair drawn per program (identity / congruence mod 2, 3; hash injective / mod 2 / mod 3 / constant) and records the abstract map over equivalence classes; the interpreter must reproduce every version (all read back at the end: persistence) and every bucket table it built is validated by XrMapRepr (length exact, keys in the bucket of their hash, keys pairwise inequivalent).",
             "Keys are ints 0..5, values ints; iteration order is not compared; hashes outside [0, 2^64) are not in this machine.",
             "DESIGN.md 6 C17"),
+    "C18": ("model_checking",
+            "TLA+ code-point-sequence semantics of str (XrStr pool machine, -simulate) + literal encoder; behaviours replayed",
+            "TLC random-walks string operations (len, get, substring, find with start, rfind, contains, starts/ends_with, partition, rpartition, strip family, replace, reverse, mul, lower, upper, cmp, chars, add, split, code_point, eq) over an abstract alphabet of 1-4 byte characters, a combining mark and case-expanding characters and records results by list semantics (positions are code-point positions); the interpreter must agree and the dual representation of every result (byte buffer + character table) must be exact. Literal spellings are generated by encoding a text (quote kind, fences, raw, escapes, formatted) and must denote that text; formatted strings must equal the join of their parts.",
+            "Negative string indices, empty needles, positions beyond the end and \\u{..} inside formatted strings are left open by the documentation and not generated.",
+            "DESIGN.md 6 C18"),
 }
 
 NOT_YET = {}
